@@ -1,6 +1,6 @@
 (* Props/C14.v — property theorems only.
    JSON and pretty-printed output encode the graph faithfully and completely. *)
-From TSG Require Import Model.C14Obs Proofs.BaseFacts Proofs.OrderFacts Proofs.Containers Proofs.JsonFacts Proofs.PrettyFacts.
+From TSG Require Import Model.C14TextObs Proofs.BaseFacts Proofs.OrderFacts Proofs.Containers Proofs.JsonFacts Proofs.PrettyFacts.
 From Coq Require Import Sorted Permutation.
 
 (* ---------------- JSON ---------------- *)
